@@ -47,6 +47,7 @@ const (
 	linkLocalUnicast
 	ianaReservedForFutureUse
 	ianaReservedMulticast
+	loopback
 )
 
 var reservedNetworks []*net.IPNet
@@ -98,6 +99,7 @@ func init() {
 		amt:                                  {"192.52.193.0/24", "2001:3::/32"},
 		orchidV2:                             {"2001:20::/28"},
 		thisHostOnThisNetwork:                {"0.0.0.0/8"},
+		loopback:                             {"127.0.0.0/8", "::1/128"}, // single addresses are covered by the !ip.IsGlobalUnicast() shortcut; listed so that networks containing the block intersect
 		translatableAddress4to6:              {"2002::/16"},
 		translatableAddress6to4:              {"64:ff9b::/96", "64:ff9b:1::/48"},
 		dummyAddress:                         {"192.0.0.8/32"},
